@@ -95,6 +95,62 @@ def _match(ctx):
     )
 
 
+# ------------------------------------------------------------------ the three document forms (C11)
+
+def _text_inputs(ctx):
+    sels = ctx.seq("selectors")
+    fake = ctx.bool("fake_root")
+    text = ctx.str("text")
+    fc = ctx.val("filter_context")
+    parsed = lib.json_loads(text)
+    # scope of the statement: JSON text of an array or an object
+    ctx.require(lib.json_ok(text), z3.Or(Py.is_list(parsed), Py.is_dict(parsed)), z3.Or(Py.is_none(fc), z3.And(Py.is_dict(fc), S.json_value(fc))))
+
+    def mk(it):
+        it.elem_facts = [(sels, lambda e: Py.is_obj(e))]
+        return path_obj(it, sels, fake)
+
+    def as_file(it):
+        import io
+
+        # a readable file: the first read() returns the text, later ones the empty string (the only
+        # thing load_data asks of it)
+        f = it.alloc(io.StringIO, {"consumed": S.FALSE}, origin="CALLER")
+
+        def read(it_, a, k, f=f):
+            was = f.fields["consumed"]
+            f.fields["consumed"] = S.TRUE
+            return Py.str(text) if z3.is_false(z3.simplify(Py.b(was))) else S.mk_str("")
+
+        f.fields["read"] = lib.Builtin("read", read)
+        return f
+
+    return mk, text, parsed, fc, as_file
+
+
+def _register_forms(meth):
+    @contract(f"JSONPath.{meth}[text|file]=={meth}[parsed]", ("C11",), [PA + meth, "jsonpath._data:load_data"], replay=("document_forms_replay", [meth], "document_forms_candidates"))
+    def _c(ctx, meth=meth):
+        mk, text, parsed, fc, as_file = _text_inputs(ctx)
+
+        def run(it, doc):
+            # the real finditer / finditer_async bodies (not their contracts, which are stated for parsed values)
+            it.inline = {"jsonpath.path:JSONPath.finditer", "jsonpath.path:JSONPath.finditer_async"}
+            v = it.run_function(method(pathm.JSONPath, meth), [mk(it), doc], {"filter_context": fc})
+            return Py.list(lib.seq_of(it, v)) if "iter" in meth else v
+
+        def on_parsed(it):
+            it.assume(S.json_value(parsed))
+            return run(it, parsed)
+
+        ctx.equiv(f"{meth}[text]", lambda it: run(it, Py.str(text)), on_parsed)
+        ctx.equiv(f"{meth}[file]", lambda it: run(it, as_file(it)), on_parsed)
+
+
+for _m in ("finditer", "findall", "match", "finditer_async", "findall_async"):
+    _register_forms(_m)
+
+
 # ------------------------------------------------------------------ environment-level forms delegate to compile() (C11)
 
 envm = mod("jsonpath.env")
